@@ -16,6 +16,7 @@ NATIVE_UNIT = {
     "DCDTrajectoryFile": "angstroms", "DTRTrajectoryFile": "angstroms", "NetCDFTrajectoryFile": "angstroms",
     "AmberNetCDFRestartFile": "angstroms", "AmberRestartFile": "angstroms", "MDCRDTrajectoryFile": "angstroms",
     "XYZTrajectoryFile": "angstroms", "LAMMPSTrajectoryFile": "angstroms", "PDBTrajectoryFile": "angstroms",
+    "ArcTrajectoryFile": "angstroms",  # TINKER archives: angstrom
 }
 FACTOR_FROM_NM = {"nanometers": 1.0, "angstroms": 10.0}
 
@@ -25,7 +26,8 @@ PYFILE = {"HDF5TrajectoryFile": "mdtraj/formats/hdf5.py", "LH5TrajectoryFile": "
           "GroTrajectoryFile": "mdtraj/formats/gro.py", "NetCDFTrajectoryFile": "mdtraj/formats/netcdf.py",
           "AmberNetCDFRestartFile": "mdtraj/formats/amberrst.py", "AmberRestartFile": "mdtraj/formats/amberrst.py",
           "MDCRDTrajectoryFile": "mdtraj/formats/mdcrd.py", "XYZTrajectoryFile": "mdtraj/formats/xyzfile.py",
-          "LAMMPSTrajectoryFile": "mdtraj/formats/lammpstrj.py", "PDBTrajectoryFile": "mdtraj/formats/pdb/pdbfile.py"}
+          "LAMMPSTrajectoryFile": "mdtraj/formats/lammpstrj.py", "PDBTrajectoryFile": "mdtraj/formats/pdb/pdbfile.py",
+          "ArcTrajectoryFile": "mdtraj/formats/arc.py"}
 
 
 def real_distance_unit(repo, cls):
